@@ -32,7 +32,7 @@ CHECKS = {
    text="Seeded exploration of histories of 2..8 mfront-like runs (sequential then concurrent, with kills at arbitrary points): at every step the number of processes inside a lock-protected section must be <= the initial value of the semaphore (1).",
    note="Trusted: the simulated named semaphore (POSIX semantics, persistent across process exits) and the forwarding shim.",
    design="§3 C46"),
- "C36": dict(ready=False, level="exploration", engine="preload",
+ "C36": dict(ready=True, level="exploration", engine="preload",
    technique="deterministic simulation of the environment: real mfront under an LD_PRELOAD simulator (seeded clock with jumps, pid, readdir order, heap layout, environ order) across run histories; byte-identity oracle",
    text="For sampled (input, interface) pairs the generated files must be byte-identical across seeded perturbations of every nondeterminism source mfront can observe and across run histories (fresh, repeated, after other inputs).",
    note="Trusted: the list of intercepted sources is complete for what mfront reads (checked with strace/ltrace during design).",
